@@ -617,3 +617,13 @@ Example fish_example :
   events fish_step FB (39 :: fish_escape_help [97; 39; 92; 10; 36] ++ [39; 32; 45])
   = [Str 39; Lit 97; Lit 39; Lit 92; Lit 32; Lit 36; Str 39; Str 32; Str 45].
 Proof. vm_compute. reflexivity. Qed.
+
+(** known finding C17-zsh-tooltip-dquote: a possible-value tooltip is written name\:"tooltip" inside a
+    ((...)) action, which _arguments evals; [zsh_escape_help] leaves the double quote alone, so at that
+    (third, unmodelled-in-the-theorems) level it closes the string. *)
+Example zsh_tooltip_dquote_closes_eval_level :
+  zsh_l1 [34] = [34] /\ final sh_step ZDQ (zsh_l1 [34]) = ZW /\
+  (* whereas the characters escape_help does treat stay inside: *)
+  final sh_step ZDQ (zsh_l1 [36; 96; 92]) = ZDQ /\
+  events sh_step ZDQ (zsh_l1 [36; 96; 92]) = [Lit 36; Lit 96; Lit 92].
+Proof. vm_compute. repeat split. Qed.
